@@ -360,6 +360,44 @@ fn write_case(imp: &str, rt: &tokio::runtime::Runtime, compressed: bool, packets
     (got, want)
 }
 
+/// keep-alives over real UDP sockets: long sessions of large datagrams (mostly >= 200-byte frames packed up to 1020 bytes) with a keep-alive
+/// every few frames; each keep-alive handed to the caller, each answered by exactly one 4-byte datagram, nothing else written
+pub fn keepalive_sessions(prop: &str, a: &Args, st: &mut Stats) {
+    let rt = io_runtime();
+    let mut rng = Rng::new(a.seed ^ 0x0C07_0D9);
+    for compressed in [true, false] { for imp in ["B", "A"] { for (nframes, style) in [(40usize, 1u64), (160, 1), (160, 2), (if a.thorough() { 1500 } else { 400 }, 1)] {
+        let cseed = rng.next() % 100_000;
+        let mut c = session_case(imp, compressed, cseed, nframes, style, true);
+        // a keep-alive after every third frame, packed again
+        let ka: Vec<u8> = if compressed { vec![1, 3, 0, 0] } else { vec![4, 3, 0, 0] };
+        let mut frames = vec![]; for (i, f) in c.frames.iter().enumerate() { frames.push(f.clone()); if i % 3 == 2 { frames.push(ka.clone()); } }
+        let packed = pack(&mut rng, &frames, style);
+        c.frames = frames; c.groups = packed.iter().map(|g| g.len()).collect();
+        let id = format!("udpka {imp} {} {cseed} {nframes} {style}", mode_tag(compressed));
+        let before = st.failures.len();
+        run_session_case(&id, &c, &rt, st, None, &mut rng);
+        for f in st.failures.iter_mut().skip(before) { f.1 = f.1.replace("[C08 ", &format!("[{prop} udp ")); }
+        st.bump("udp sessions with keep-alives");
+    } } }
+}
+
+/// every kind written over UDP, variable-length kinds at every size class up to the mode's largest frame: one datagram per write, holding the frame
+pub fn all_sizes_written(imp: &str, rt: &tokio::runtime::Runtime, compressed: bool) -> (usize, Option<String>) {
+    let mut packets: Vec<Packet> = crate::gen::kinds::default_packets();
+    let mut sizes_seen = std::collections::BTreeSet::new();
+    for d in crate::gen::kinds::default_packets() { for k in (0..=255usize).rev() {
+        let mut p = d.clone();
+        if !crate::gen::glue::vec_resize(&mut p, k) { break; }
+        if let Some(fr) = encode(compressed, &p) { if sizes_seen.insert(fr.len()) { packets.push(p); } }
+    } }
+    let (got, want) = write_case(imp, rt, compressed, &packets);
+    if got != want {
+        let pos = got.iter().zip(want.iter()).position(|(g, w)| g != w).unwrap_or(got.len().min(want.len()));
+        return (want.len(), Some(format!("datagram #{pos}: peer received {:?} ({} bytes) but the frame written is {:?} ({} bytes); {} datagrams for {} writes", got.get(pos).map(|d| hex(d)), got.get(pos).map(|d| d.len()).unwrap_or(0), want.get(pos).map(|d| hex(d)), want.get(pos).map(|d| d.len()).unwrap_or(0), got.len(), want.len())));
+    }
+    (want.len(), None)
+}
+
 pub fn run(a: &Args) {
     let rt = io_runtime();
     if let Some(r) = &a.replay {
